@@ -558,6 +558,16 @@ def m_add(ctx, o):
     o.add(_spline(ctx, KINDS[kname]['extra'], prefix='X', salt=2))
 
 
+def m_add_used(ctx, o):
+    """the shape that is added has been used on its own before (sampled; tessellated if it is a surface)"""
+    kname = {1: 'CC', 2: 'SC', 3: 'VC'}[o.pdimension]
+    e = _spline(ctx, KINDS[kname]['extra'], prefix='X', salt=2)
+    _ = e.evalpts
+    if e.pdimension == 2 and e.dimension == 3:
+        _ = (e.vertices, e.faces)
+    o.add(e)
+
+
 MUTATORS = {
     'degree': m_degree, 'knotvector': m_knotvector, 'knotvector_all': m_knotvector_all, 'ctrlpts': m_ctrlpts,
     'ctrlptsw': m_ctrlptsw, 'weights': m_weights, 'set_ctrlpts': m_set_ctrlpts, 'ctrlpts2d': m_ctrlpts2d,
@@ -568,7 +578,7 @@ MUTATORS = {
     'insert_knot': m_insert_knot, 'insert_knot_v': m_insert_knot_v, 'insert_knot_w': m_insert_knot_w,
     'insert_knot_sym': m_insert_knot_sym, 'remove_knot': None, 'refine': m_refine, 'reverse': m_reverse,
     'transpose': m_transpose, 'flip': m_flip, 'translate': m_translate, 'rotate': m_rotate, 'scale': m_scale,
-    'add_dimension': m_add_dimension, 'add': m_add, 'elem_ctrlpts': m_elem_ctrlpts, 'elem_insert_knot': m_elem_knot,
+    'add_dimension': m_add_dimension, 'add': m_add, 'add_used': m_add_used, 'elem_ctrlpts': m_elem_ctrlpts, 'elem_insert_knot': m_elem_knot,
 }
 # after these the new control points are linear combinations / contain cos, sin atoms (see _inv)
 LAZY_BBOX = ('insert_knot', 'insert_knot_v', 'insert_knot_w', 'insert_knot_sym', 'remove_knot', 'refine', 'rotate')
@@ -582,7 +592,7 @@ def _legal(kname, tier):
     """the public mutators of a class"""
     th = tier == 'thorough'
     if kname in CONTAINERS:
-        ms = ['add', 'delta', 'sample_size', 'translate', 'elem_ctrlpts', 'elem_insert_knot'] + (['scale', 'rotate'] if th else [])
+        ms = ['add', 'add_used', 'delta', 'sample_size', 'translate', 'elem_ctrlpts', 'elem_insert_knot'] + (['scale', 'rotate'] if th else [])
         if kname != 'CC':
             ms += ['delta_u'] + (['sample_size_u'] if th or kname == 'SC' else []) + \
                   (['delta_v', 'sample_size_v'] if th else [])
@@ -621,6 +631,8 @@ def _mut_instances(tier):
             if kname not in CONTAINERS and KINDS[kname]['rat']:
                 out.append(dict(kind=kname, mut=m, state='filled', post='rev'))
                 out.append(dict(kind=kname, mut=m, state='filled', post='wfirst'))
+            if kname in CONTAINERS and m in ('add', 'add_used', 'elem_ctrlpts', 'delta'):
+                out.append(dict(kind=kname, mut=m, state='filled', post='rev'))       # mesh views before the sampled points
     return out
 
 
